@@ -4,6 +4,7 @@ package main
 // through quoting; parser, scanner and literal package agree.
 
 import (
+	"regexp"
 	"fmt"
 	"math/rand/v2"
 	"os"
@@ -250,6 +251,11 @@ func c9parseOne(c *Ctx, src string, class string) {
 		return
 	}
 	if r.panicV != nil {
+		if r.where == "comment-mode" && c09attrComment.MatchString(src) {
+			// recorded finding: a comment between an attribute's name and its parenthesis
+			c.Violate("C09|comment-between-attribute-name-and-arguments", fmt.Sprintf("%s: %v", r.where, r.panicV), rp)
+			return
+		}
 		c.Violate(key("panic"), fmt.Sprintf("%s: %v", r.where, r.panicV), rp)
 		return
 	}
@@ -277,7 +283,7 @@ func c9parseOne(c *Ctx, src string, class string) {
 		// identifiers inside an expression: a file is not an expression.
 		ts := src
 		for {
-			ts = strings.TrimLeft(ts, " \t\r\n,")
+			ts = strings.TrimLeft(ts, " \t\r\n,\ufeff")
 			if strings.HasPrefix(ts, "//") {
 				if i := strings.IndexByte(ts, '\n'); i >= 0 {
 					ts = ts[i+1:]
@@ -469,6 +475,8 @@ func c9deep(r *rand.Rand) string {
 	open := []string{"[", "{a:", "(", "{", "[{", "-", "!", "a.", "a[", "a&", "1+"}[r.IntN(11)]
 	return strings.Repeat(open, n)
 }
+
+var c09attrComment = regexp.MustCompile(`@[A-Za-z_$#][A-Za-z0-9_$#]*[ \t]*//[^\n]*\n[ \t\n]*\(`)
 
 func init() {
 	register("C09", "exploration", func(c *Ctx) {
